@@ -93,7 +93,20 @@ def eval_one(mod, scn, driver_ok=True, model_out=None):
         rec['viol'] = [{'clause': 'terminates', 'what': f'the implementation never finishes this scenario: {err}'}]
         rec['lines'], rec['trace'] = [], []
         return rec
-    except Exception:
+    except Exception as err:
+        # safety net: an exception that ORIGINATES in the code under test and that the property's scenario
+        # runner does not expect on any path (it never happens on the unchanged tree) is a behaviour of the
+        # implementation, not a fault of the machinery: report it instead of giving up with exit 2
+        tb = traceback.extract_tb(err.__traceback__)
+        src = os.path.realpath(leantie.EDZED_SRC) + os.sep
+        if tb and os.path.realpath(tb[-1].filename).startswith(src):
+            last = tb[-1]
+            rec['viol'] = [{'clause': 'no_unexpected_exception',
+                            'what': f'the implementation raised {type(err).__name__}: {str(err)[:200]} at '
+                                    f'{os.path.relpath(last.filename, src)}:{last.lineno} ({last.name}); no path of '
+                                    'this scenario raises it on the unchanged code'}]
+            rec['lines'], rec['trace'] = [], []
+            return rec
         rec['infra'] = 'run_impl: ' + traceback.format_exc()[-1500:]
         return rec
     rec['lines'] = res['lines']
